@@ -5,6 +5,7 @@ import (
 	"math"
 	"strconv"
 	"strings"
+	"time"
 
 	"github.com/shopspring/decimal"
 	"github.com/tyler-sommer/stick"
@@ -17,6 +18,7 @@ import (
 //	num:<kind>:<q>         numeric carrier of kind int,int8..uint64,float32,float64 holding q/64
 //	big:<kind>:max|min     extreme value of the kind
 //	huge:<float>|inf|-inf|nan   float64 outside the fixed-point window
+//	time:<RFC3339>         time.Time
 //	nil                    untyped nil
 //	nilptr:<T>             typed nil pointer; T in int,string,struct,slice,map,vstringer,pstringer,vnumber,vboolean,person
 //	ptr:<id>               pointer to the value of another fixture (ints, strings, slices, maps, structs)
@@ -83,6 +85,18 @@ func (p person) Level(l userLevel) userLevel  { return l + 1 }
 type userID int
 type userDur int64
 type userLevel uint8
+
+// embedded structs: promoted fields through an exported embedded type and through a pointer to an unexported one
+type Base struct {
+	ID    int
+	Title string
+}
+type hiddenBase struct{ Code int }
+type embOuter struct {
+	Base
+	*hiddenBase
+	Own string
+}
 
 func newPerson() person {
 	return person{Name: "Ann", Age: 30, Tags: []string{"x", "y"}, secret: "s"}
@@ -183,6 +197,8 @@ func fixtureByID(id string) (stick.Value, error) {
 		return numOfKind(arg(1), float64(q)/64)
 	case "big":
 		return bigOfKind(arg(1), arg(2))
+	case "time":
+		return time.Parse(time.RFC3339, id[5:])
 	case "huge":
 		switch arg(1) {
 		case "inf":
@@ -245,6 +261,8 @@ func fixtureByID(id string) (stick.Value, error) {
 		case map[string]stick.Value:
 			return &v, nil
 		case person:
+			return &v, nil
+		case embOuter:
 			return &v, nil
 		case [3]int:
 			return &v, nil
@@ -369,6 +387,9 @@ func fixtureByID(id string) (stick.Value, error) {
 		}
 		if arg(1) == "empty" {
 			return struct{}{}, nil
+		}
+		if arg(1) == "emb" {
+			return embOuter{Base: Base{ID: 7, Title: "ti"}, hiddenBase: &hiddenBase{Code: 3}, Own: "own"}, nil
 		}
 	case "stringer":
 		return vStringer{strings.Replace(id[9:], "%20", " ", -1)}, nil
